@@ -75,6 +75,9 @@ func JudgeAccounting(w *World) *Verdict {
 	if relEvents > 0 {
 		v.Classes = append(v.Classes, "event-on-node-with-releasing-or-pipelined-pods")
 	}
+	if w.HasDRA() {
+		v.Classes = append(v.Classes, "world-with-dra")
+	}
 	v.Classes = append(v.Classes, fmt.Sprintf("events:%s", bucket(events)))
 	v.Nontrivial = sharedEvents > 0 || relEvents > 0
 	return v
